@@ -26,20 +26,20 @@ import RuxModel.Props.C02
 -/
 namespace Rux
 
-theorem C13_reject_nil_handler (strict : Bool) (id : Nat) (name : Bytes) (ms : List Bytes) (p : Bytes)
+theorem C13_reject_nil_handler (gv : GVars) (strict : Bool) (id : Nat) (name : Bytes) (ms : List Bytes) (p : Bytes)
     (methods : List Bytes) (hfm : formatMethods ms = some methods) :
-    prepare strict id name ms p true = .reject .handler := by
+    prepare gv strict id name ms p true = .reject .handler := by
   unfold prepare; rw [hfm]; rfl
 
-theorem C13_reject_no_methods (strict : Bool) (id : Nat) (name : Bytes) (ms : List Bytes) (p : Bytes)
+theorem C13_reject_no_methods (gv : GVars) (strict : Bool) (id : Nat) (name : Bytes) (ms : List Bytes) (p : Bytes)
     (hfm : formatMethods ms = some []) :
-    prepare strict id name ms p false = .reject .methods := by
+    prepare gv strict id name ms p false = .reject .methods := by
   unfold prepare; rw [hfm]; rfl
 
-theorem C13_reject_unknown_method (strict : Bool) (id : Nat) (name : Bytes) (ms : List Bytes) (p : Bytes)
+theorem C13_reject_unknown_method (gv : GVars) (strict : Bool) (id : Nat) (name : Bytes) (ms : List Bytes) (p : Bytes)
     (methods : List Bytes) (hfm : formatMethods ms = some methods) (hne : methods ≠ [])
     (m : Bytes) (hm : m ∈ methods) (hbad : m ∉ anyMethodsB) :
-    prepare strict id name ms p false = .reject .method := by
+    prepare gv strict id name ms p false = .reject .method := by
   unfold prepare; rw [hfm]
   have h1 : methods.isEmpty = false := by cases methods <;> simp_all
   have h2 : (methods.any fun m => !anyMethodsB.contains m) = true := by
@@ -90,8 +90,8 @@ theorem C13_caps_aligned (r : RouteM) (hok : routeOK r.info = true) (q : Bytes) 
   omega
 
 /-- every route that `prepare` accepts satisfies that alignment (so it holds for every registered table) -/
-theorem C13_accepted_aligned (strict : Bool) (id : Nat) (name : Bytes) (ms : List Bytes) (p : Bytes) (nh : Bool)
-    (route : RouteM) (h : prepare strict id name ms p nh = .ok route) (hs : route.static = false) :
+theorem C13_accepted_aligned (gv : GVars) (strict : Bool) (id : Nat) (name : Bytes) (ms : List Bytes) (p : Bytes) (nh : Bool)
+    (route : RouteM) (h : prepare gv strict id name ms p nh = .ok route) (hs : route.static = false) :
     routeOK route.info = true := (prepare_ok_facts h).1 hs
 
 /-- the lookup is defined for every table, every option record, every method string and every path
